@@ -370,13 +370,14 @@ Proof. exact multi_ddict_keeps. Qed.
 Print Assumptions C02_dictid_multi_keeps.
 
 (* streaming = single call, at the level of dictionary selection: from EVERY context state without a pending single-use prefix
-   and without the pointer of a used-up prefix left behind, for EVERY list of frames (naming any IDs), feeding them one after the
-   other to ZSTD_decompressStream and handing them all to one ZSTD_decompressDCtx call decode every frame from the same
-   dictionary, accept / refuse the same frames (both stop at the first dictionary_wrong) and leave the same state.  The second
-   hypothesis is the state of finding C02-dstream-stale-prefix-pointer-selects-ddict, where the code (and the model) differ. *)
+   (its documented meaning differs: next frame / whole call), for EVERY non-empty list of frames (naming any IDs), feeding them one
+   after the other to ZSTD_decompressStream and handing them all to one ZSTD_decompressDCtx call decode every frame from the same
+   dictionary, accept / refuse the same frames (both stop at the first dictionary_wrong) and leave the same selection state.
+   Before fix a891479 this needed the extra hypothesis "no used-up prefix has left its pointer behind" (finding
+   C02-dstream-stale-prefix-pointer-selects-ddict; refutation of the old code: Example stale_selection_differs in DictIdProofs.v) *)
 Theorem C02_dictid_stream_eq_oneshot :
   forall (D : Type) (did : D -> N) (s : ds D) (ids : list N),
-  ds_uses D s <> UseOnce -> (ds_uses D s = DontUse -> ds_dict D s = None) ->
+  ds_uses D s <> UseOnce -> ids <> [] ->
   ds_step D did s (IOneShot D ids) = stream_frames D did s ids.
 Proof. exact stream_eq_oneshot. Qed.
 Print Assumptions C02_dictid_stream_eq_oneshot.
